@@ -529,14 +529,27 @@ def _done_slice(fnode, given=('pipeline_state', 'pipeline_state0', 'state', 'act
   need, keep = {'done'}, []
   for s_ in reversed(fnode.body):
     tg = set()
+    compound = isinstance(s_, (ast.If, ast.For, ast.While, ast.With, ast.Try))
     if isinstance(s_, ast.Assign):
       for t in s_.targets:
         tg |= _assigned(t)
     elif isinstance(s_, ast.AugAssign):
       tg = _assigned(s_.target)
+    elif compound:
+      # a compound statement (e.g. `if self._terminate_when_unhealthy: done = ...`) is kept whole
+      for x in ast.walk(s_):
+        if isinstance(x, ast.Assign):
+          for t in x.targets:
+            tg |= _assigned(t)
+        elif isinstance(x, (ast.AugAssign, ast.AnnAssign)):
+          tg |= _assigned(x.target)
     tg -= set(given)
     if tg & need:
       keep.append(s_)
+      if compound:
+        # may assign on some paths only: the names stay needed from above as well
+        need |= {n.id for n in ast.walk(s_) if isinstance(n, ast.Name) and isinstance(n.ctx, ast.Load)}
+        continue
       if not isinstance(s_, ast.AugAssign):
         need -= tg
       need |= {n.id for n in ast.walk(s_.value) if isinstance(n, ast.Name)}
@@ -566,7 +579,8 @@ def r16_8(U, rep, envs):
     nchecked += 1
     stmts, free = _done_slice(step.node)
     I = new_interp(U.repo)
-    attrs = {'_terminate_when_unhealthy': True}
+    # every other configuration attribute of the env (reward weights, ...) is a fresh symbol
+    attrs = {'_terminate_when_unhealthy': True, '__missing__': lambda a: sym('cfg' + a)}
     bounds = {}
     for r in ranges:
       lo, hi = sym('lo' + r), sym('hi' + r)
